@@ -250,6 +250,11 @@ def run_lexicase(case, source):
         # the same step object used before on another population
         warm = mk_inds([[x + 3 for x in v] for v in reversed(case["vectors"])])
         list(step.apply(problem, SequentialEvaluator(), TableRep(), RecordingSource(0), list(warm), 1, 0))
+    if case.get("seed", 0) % 4 == 1:
+        # twins: further, distinct Individual objects whose genotypes equal those of the first ones
+        from geneticengine.solutions.individual import Individual
+
+        inds = inds + [Individual(x.genotype, x.representation) for x in inds[:2]]
     pop = list(inds)
     if case.get("seed", 0) % 3 == 0:
         # the same step object was applied before to the very same list object, under another
@@ -265,14 +270,15 @@ def check_lexicase(case, rec, inds, winners):
     n_cases = len(case["minimize"])
     desc = f"vectors {case['vectors']}, minimize {case['minimize']}, epsilon={case['epsilon']}, target {case['target']}"
     ids = {id(x): x for x in inds}
-    avail = [(x.genotype[0], x.genotype[1]) for x in inds]
+    remaining = list(inds)  # by identity: the population may hold distinct individuals with equal genotypes
+    avail = [(x.genotype[0], x.genotype[1]) for x in remaining]
     for j, w in enumerate(winners):
         if id(w) not in ids:
             rec.fail("C17/lexicase/winner-not-a-member", f"winner #{j} is not in the population ({desc})")
             return None
         key = w.genotype[0]
-        if key not in [k for k, _ in avail]:
-            rec.fail("C17/lexicase/individual-returned-more-often-than-it-occurs", f"individual #{key} returned again as winner #{j} ({desc})")
+        if not any(w is x for x in remaining):
+            rec.fail("C17/lexicase/individual-returned-more-often-than-it-occurs", f"individual #{key} (the very object) returned again as winner #{j} ({desc}, population keys {[x.genotype[0] for x in inds]})")
             return None
         union = survivor_union(avail, n_cases, case["minimize"], case["epsilon"])
         if key not in union:
@@ -281,7 +287,8 @@ def check_lexicase(case, rec, inds, winners):
                 f"winner #{j} is individual #{key} {w.genotype[1]}, but with candidates {avail} the lexicase filter leaves only {sorted(union)} over all case orders ({desc})",
             )
             return None
-        avail = [(k, v) for k, v in avail if k != key]
+        remaining = [x for x in remaining if x is not w]
+        avail = [(x.genotype[0], x.genotype[1]) for x in remaining]
     return True
 
 
